@@ -252,6 +252,22 @@ func genCfgValue(r *rand.Rand, fields []cfgField, wide bool) string {
 	return strings.Join(parts, "/")
 }
 
+func genBigMap(r *rand.Rand, f cfgField, off, n int) string {
+	var it []string
+	for j := 0; j < n; j++ {
+		it = append(it, hxs(fmt.Sprintf("k%d", off+j))+"="+genScalarText(r, f.k, false))
+	}
+	return "M(" + strings.Join(it, "+") + ")"
+}
+
+func genBigSlice(r *rand.Rand, f cfgField, n int) string {
+	var it []string
+	for j := 0; j < n; j++ {
+		it = append(it, genScalarText(r, f.k, false))
+	}
+	return "L(" + strings.Join(it, "+") + ")"
+}
+
 func c10Gen(r *rand.Rand, n int, tier string) []string {
 	var out []string
 	for i := 0; i < n; i++ {
@@ -273,6 +289,26 @@ func c10Gen(r *rand.Rand, n int, tier string) []string {
 				if f.edge || r.Intn(3) == 0 {
 					pb[2+j] = pa[2+j]
 				}
+			}
+			if r.Intn(120) == 0 {
+				// containers near the documented limit of 1000 elements: a map whose entries are largely replaced
+				// (more diff points than entries), a slice that grows or shrinks by hundreds of elements
+				for j, f := range fields {
+					if f.edge {
+						continue
+					}
+					switch f.kind {
+					case 'M':
+						na, nb := pick(r, []int{400, 600, 1000}), pick(r, []int{400, 600, 1000})
+						off := pick(r, []int{0, 300, 1000})
+						pa[2+j] = genBigMap(r, f, 0, na)
+						pb[2+j] = genBigMap(r, f, off, nb)
+					case 'L':
+						pa[2+j] = genBigSlice(r, f, pick(r, []int{0, 3, 700, 1000}))
+						pb[2+j] = genBigSlice(r, f, pick(r, []int{0, 3, 700, 1000}))
+					}
+				}
+				a = strings.Join(pa, "/")
 			}
 			out = append(out, fmt.Sprintf("dm %s %s %s", T, a, strings.Join(pb, "/")))
 		}
